@@ -133,6 +133,15 @@ pub struct MemCase {
     /// add this to r10 after the address has been formed and before the access: only loadable under
     /// a permissive verifier; the 512-byte stack region does not move with the register
     pub r10_shift: i32,
+    /// the same instruction is first executed on an in-bounds address (stack slot or packet start)
+    /// and the address register then gets its final value by 1: being rewritten, 2: an `add`,
+    /// 3: the return value of a helper call (base register r0)
+    pub pre_same: u8,
+}
+
+pub static RET_PTR: std::sync::atomic::AtomicU64 = std::sync::atomic::AtomicU64::new(0);
+pub fn ret_ptr_helper(_a: u64, _b: u64, _c: u64, _d: u64, _e: u64) -> u64 {
+    RET_PTR.load(std::sync::atomic::Ordering::Relaxed)
 }
 
 fn opcode(acc: Acc, w: u8) -> u8 {
@@ -153,7 +162,7 @@ fn opcode(acc: Acc, w: u8) -> u8 {
 }
 
 /// Build the program for a case. `pkt_addr` is needed for ldabs/ldind (address = packet + idx).
-pub fn program(c: &MemCase, pkt_addr: u64) -> Option<Vec<I>> {
+pub fn program(c: &MemCase, pkt_addr: u64, pkt_len: usize) -> Option<Vec<I>> {
     let b = c.base;
     let opc = opcode(c.acc, c.w);
     let mut p = vec![];
@@ -175,6 +184,48 @@ pub fn program(c: &MemCase, pkt_addr: u64) -> Option<Vec<I>> {
             true
         }
     };
+    // pre_same: run the instruction on a safe address first, then move the address register
+    let pre_same = |p: &mut Vec<I>, insn: I| -> bool {
+        if c.pre_same == 0 {
+            return set_base(p, b, c.t, c.off as i64);
+        }
+        // the safe address: a stack slot, unless the final address is reached by adding a
+        // statically known distance to it (then the packet start, for loads only: a store there
+        // would change the memory the oracle watches)
+        let is_load = matches!(c.acc, Acc::Ldx);
+        let (safe, delta): (Target, Option<i64>) = match c.t {
+            Target::Stack(d) => (Target::Stack(-64), Some(d + 64)),
+            Target::Abs(ea) if c.pre_same == 2 => {
+                if pkt_len < 8 || !is_load {
+                    return false;
+                }
+                (Target::Abs(pkt_addr), Some(ea.wrapping_sub(pkt_addr) as i64))
+            }
+            Target::Abs(_) => (Target::Stack(-64), None),
+        };
+        p.push(isa::stdw(10, -64, 0x0a0b0c0d));
+        if !set_base(p, b, safe, c.off as i64) {
+            return false;
+        }
+        p.push(insn);
+        match c.pre_same {
+            1 => set_base(p, b, c.t, c.off as i64),
+            2 => {
+                let d = delta.unwrap();
+                p.extend(isa::lddw(9, d as u64));
+                p.push(I::new(0x0f, b, 9, 0, 0)); // add64 b, r9
+                true
+            }
+            _ => {
+                // the helper returns RET_PTR (set by the harness to target - off); base must be r0
+                if b != 0 || matches!(c.t, Target::Stack(_)) {
+                    return false;
+                }
+                p.push(isa::call_helper(7));
+                true
+            }
+        }
+    };
     let mut stack_reload: Option<i64> = None;
     match c.acc {
         Acc::Ldx => {
@@ -188,7 +239,7 @@ pub fn program(c: &MemCase, pkt_addr: u64) -> Option<Vec<I>> {
                     }
                 }
             }
-            if !set_base(&mut p, b, c.t, c.off as i64) {
+            if !pre_same(&mut p, I::new(opc, 8, b, c.off, 0)) {
                 return None;
             }
             if c.r10_shift != 0 {
@@ -211,7 +262,11 @@ pub fn program(c: &MemCase, pkt_addr: u64) -> Option<Vec<I>> {
                     stack_reload = Some(lo);
                 }
             }
-            if !set_base(&mut p, b, c.t, c.off as i64) {
+            let the_store = match c.acc {
+                Acc::St => I::new(opc, b, 0, c.off, STORE_IMM),
+                _ => I::new(opc, b, vreg, c.off, 0),
+            };
+            if !pre_same(&mut p, the_store) {
                 return None;
             }
             if c.r10_shift != 0 {
@@ -251,7 +306,22 @@ pub fn program(c: &MemCase, pkt_addr: u64) -> Option<Vec<I>> {
             // imm = off (as a small non-negative immediate), src = idx - imm
             let idx = ea.wrapping_sub(pkt_addr);
             let imm = if b == 7 && (5..=i32::MAX as u64).contains(&idx) { (idx - 5) as i32 } else { (c.off as i32).rem_euclid(4096) };
-            p.extend(isa::lddw(b, idx.wrapping_sub(imm as u64)));
+            if c.pre_same != 0 {
+                // the same ldind on packet byte `imm` first (src = 0), then src moves
+                if c.pre_same > 2 || (imm as i64) < 0 || imm as usize + c.w as usize > pkt_len {
+                    return None;
+                }
+                p.extend(isa::lddw(b, 0));
+                p.push(I::new(opc, 0, b, 0, imm));
+                if c.pre_same == 1 {
+                    p.extend(isa::lddw(b, idx.wrapping_sub(imm as u64)));
+                } else {
+                    p.extend(isa::lddw(9, idx.wrapping_sub(imm as u64)));
+                    p.push(I::new(0x0f, b, 9, 0, 0));
+                }
+            } else {
+                p.extend(isa::lddw(b, idx.wrapping_sub(imm as u64)));
+            }
             if c.pre_narrow {
                 p.push(I::new(0x50, 0, b, 0, imm));
             }
@@ -304,7 +374,7 @@ fn case_json(c: &MemCase, l: &Layout, eng: Eng, a: &Arena) -> Value {
         }
         json!({"abs": format!("{ea:#x}")})
     };
-    json!({"kind":"mem","eng":eng.name(),"acc":format!("{:?}", c.acc),"w":c.w,"off":c.off,"base":c.base,"pre_narrow":c.pre_narrow,"pre_store":c.pre_store,"r10_shift":c.r10_shift,
+    json!({"kind":"mem","eng":eng.name(),"acc":format!("{:?}", c.acc),"w":c.w,"off":c.off,"base":c.base,"pre_narrow":c.pre_narrow,"pre_store":c.pre_store,"r10_shift":c.r10_shift,"pre_same":c.pre_same,
            "target": match c.t { Target::Abs(ea) => rel(ea), Target::Stack(d) => json!({"rel":"stack","delta":d}) },
            "layout": {"vm": vm::kind_name(l.kind), "pkt": l.pkt_len, "mb": l.mb_len, "allowed": l.allowed}})
 }
@@ -379,7 +449,7 @@ pub fn c02_check(s: &mut Sink, c: &MemCase, l: &Layout, a: &Arena) {
 }
 
 fn c02_check_once(s: &mut Sink, c: &MemCase, l: &Layout, a: &Arena, first: bool) {
-    let Some(prog) = program(c, a.pkt.addr()) else { return };
+    let Some(prog) = program(c, a.pkt.addr(), if matches!(l.kind, VmKind::NoData) { 0 } else { l.pkt_len }) else { return };
     let bytes = isa::enc(&prog);
     let regs = regions(l, a);
     let exp = classify(c.t, c.w as u64, &regs);
@@ -399,6 +469,12 @@ fn c02_check_once(s: &mut Sink, c: &MemCase, l: &Layout, a: &Arena, first: bool)
     let rp = || case_json(c, l, Eng::Interp, a);
     let r = catch(|| {
         let mut vm = make_vm(l.kind, &bytes, c.r10_shift != 0)?;
+        if c.pre_same == 3 {
+            if let Target::Abs(ea) = c.t {
+                RET_PTR.store(ea.wrapping_sub(c.off as i64 as u64), std::sync::atomic::Ordering::Relaxed);
+            }
+            vm.register_helper(7, ret_ptr_helper)?;
+        }
         for (_, st, en) in regs.iter().filter(|r| r.0 == "allowed") {
             vm.register_allowed_memory(*st..*en);
         }
@@ -536,7 +612,7 @@ pub fn c11_check(s: &mut Sink, c: &MemCase, l: &Layout, a: &Arena) {
     if matches!(c.acc, Acc::LdAbs | Acc::LdInd) && (l.pkt_len == 0 || matches!(l.kind, VmKind::NoData)) {
         return;
     }
-    let Some(prog) = program(c, a.pkt.addr()) else { return };
+    let Some(prog) = program(c, a.pkt.addr(), if matches!(l.kind, VmKind::NoData) { 0 } else { l.pkt_len }) else { return };
     let bytes = isa::enc(&prog);
     // Cranelift knows packet, mbuff and stack only
     let regs: Vec<_> = regions(l, a).into_iter().filter(|r| r.0 != "allowed").collect();
@@ -553,6 +629,12 @@ pub fn c11_check(s: &mut Sink, c: &MemCase, l: &Layout, a: &Arena) {
     let class = format!("{}@{}", acc_name(c), where_class(c, l, a));
     let compiled = catch(|| {
         let mut vm = make_vm(l.kind, &bytes, c.r10_shift != 0)?;
+        if c.pre_same == 3 {
+            if let Target::Abs(ea) = c.t {
+                RET_PTR.store(ea.wrapping_sub(c.off as i64 as u64), std::sync::atomic::Ordering::Relaxed);
+            }
+            vm.register_helper(7, ret_ptr_helper)?;
+        }
         vm.compile(Eng::Cl)?;
         Ok::<_, String>(vm)
     });
@@ -765,7 +847,14 @@ pub fn run(s: &mut Sink, cranelift: bool) {
                         if matches!(acc, Acc::LdAbs) && (off != 0 || base != 6) {
                             continue;
                         }
-                        let c = MemCase { acc: *acc, w: *w, t: *t, off, base, pre_narrow: false, pre_store: None, r10_shift: 0 };
+                        let c = MemCase { acc: *acc, w: *w, t: *t, off, base, pre_narrow: false, pre_store: None, r10_shift: 0, pre_same: 0 };
+                        // the same instruction on a safe address first, then the address register moves
+                        if base == 6 && !matches!(acc, Acc::LdAbs) && (off == 0 || off == 8 || thorough) {
+                            for ps in 1..=3u8 {
+                                let c4 = MemCase { pre_same: ps, base: if ps == 3 { 0 } else { 6 }, ..c };
+                                if cranelift { c11_check(s, &c4, l, &a) } else { c02_check(s, &c4, l, &a) }
+                            }
+                        }
                         if matches!(t, Target::Stack(_)) && off == 0 && base == 6 && !matches!(acc, Acc::LdAbs | Acc::LdInd) {
                             for sh in [256, -256, 8] {
                                 let c3 = MemCase { r10_shift: sh, ..c };
@@ -831,7 +920,7 @@ pub fn replay(v: &Value) -> Vec<String> {
         "LdAbs" => Acc::LdAbs,
         _ => Acc::LdInd,
     };
-    let c = MemCase { acc, w: v["w"].as_u64().unwrap() as u8, t: target_from_json(v, &a), off: v["off"].as_i64().unwrap() as i16, base: v["base"].as_u64().unwrap() as u8, pre_narrow: v["pre_narrow"].as_bool().unwrap_or(false), pre_store: v["pre_store"].as_u64().map(|x| x as u8), r10_shift: v["r10_shift"].as_i64().unwrap_or(0) as i32 };
+    let c = MemCase { acc, w: v["w"].as_u64().unwrap() as u8, t: target_from_json(v, &a), off: v["off"].as_i64().unwrap() as i16, base: v["base"].as_u64().unwrap() as u8, pre_narrow: v["pre_narrow"].as_bool().unwrap_or(false), pre_store: v["pre_store"].as_u64().map(|x| x as u8), r10_shift: v["r10_shift"].as_i64().unwrap_or(0) as i32, pre_same: v["pre_same"].as_u64().unwrap_or(0) as u8 };
     let mut s = Sink::new("replay", Tier::Quick, 0, 1, None, None, 3600);
     if v["eng"] == "cranelift" {
         c11_check(&mut s, &c, &l, &a);
